@@ -14,10 +14,10 @@ Theorem rule_first_match : forall (rules : list (rule_action * string)) (name : 
   | act => exists l1 p l2, rules = l1 ++ (act, p) :: l2 /\ dotted_prefix p name
                            /\ forall a' p', In (a', p') l1 -> ~ dotted_prefix p' name
   end.
-Proof. apply rule_first_match_gen. exact (proj1 tables_rules_ok). Qed.
+Proof. apply rule_first_match_gen. vm_compute; reflexivity. Qed.
 
 Theorem rules_generated_wf : rules_wf rules_gen = true.
-Proof. exact (proj2 tables_rules_ok). Qed.
+Proof. vm_compute; reflexivity. Qed.
 
 Local Open Scope string_scope.
 Example rules_nonvacuous :
